@@ -65,6 +65,9 @@ func checkC09(c *Ctx, r *Result, tier string) {
 	// R09d polling-loop exit conditions
 	c09ExitConditions(c, r)
 
+	// R09e no stop request pending where a worker is started
+	c09StartWithoutPendingStop(c, r)
+
 	// R09c
 	checkLockOrder(c, r, lfs, "R09c", engineLockClass)
 	r.Extra["reentrance_call_sites"] = checkReentrance(c, r, lfs, "R09c-reentry", func(class string) bool { return len(class) >= 5 && class[:5] == "pool." })
